@@ -16,8 +16,23 @@ def units_of(contract):
     return [dict(zip(keys, vals)) for vals in itertools.product(*[split[k] for k in keys])]
 
 
+def run_frame_unit(repo, target):
+    """static frame / purity / verbose-shape obligations (pyvc/frame.py) for one function or for every public function ('frame:*')."""
+    from pyvc.registry import Registry
+    from pyvc import frame
+    t0 = time.time()
+    reg = Registry(repo)
+    res, functions = frame.analyse_repo(reg)
+    want = target.split(":", 1)[1]
+    out = [r.as_dict() for r in res if want == "*" or r.name.startswith(want + ":")]
+    return {"unit": target, "split": {}, "results": out, "trusted": ["numpy view-versus-copy table of pyvc/frame.py"], "called": [],
+            "wall": time.time() - t0, "error": None if out else f"crash: no function matches {want}", "canary": False}
+
+
 def run_unit(args):
     repo, qualname, split, canary = args
+    if qualname.startswith("frame:"):
+        return run_frame_unit(repo, qualname)
     here = os.path.dirname(os.path.dirname(os.path.abspath(__file__)))
     if here not in sys.path:
         sys.path.insert(0, here)
@@ -58,6 +73,9 @@ def verify(repo, qualnames, procs=16, canaries=True):
     reg = Registry(repo)
     jobs = []
     for q in qualnames:
+        if q.startswith("frame:"):
+            jobs.append((repo, q, {}, False))
+            continue
         c = reg.contracts[q]
         us = units_of(c)
         for u in us:
@@ -135,6 +153,10 @@ def run_property(pid, P, tier, repo, seed):
     slow = sorted(obligations, key=lambda r: -r["seconds"])[:5]
     fun_infos = []
     for q in targets:
+        if q.startswith("frame:"):
+            fun_infos.append({"function": q, "contract": "static frame / purity / verbose-shape analysis (pyvc/frame.py)",
+                              "obligations": sum(1 for r in obligations if r["backend"] == "static")})
+            continue
         c = reg.contracts[q]
         try:
             info = reg.source_info(c.get("function", q))
